@@ -31,6 +31,48 @@ FOREIGN_SERIALISERS = {"json.dumps": "JSON escapes non-BMP characters as surroga
                        "base64.b64encode": "base64 is not a CEL literal", "ascii": "ascii() escapes with Python's conventions"}
 
 
+def zero_period(fn: ast.AST):
+    """How seconds_to_duration writes a period of 0: (True, why) guarded, (False, why) empty text, (None, why) not understood."""
+    for n in ast.walk(fn):
+        if isinstance(n, ast.AST):
+            for ch in ast.iter_child_nodes(n):
+                ch._p = n  # type: ignore[attr-defined]
+    joins = [c for c in ast.walk(fn) if isinstance(c, ast.Call) and isinstance(c.func, ast.Attribute) and c.func.attr == "join"
+             and isinstance(c.func.value, ast.Constant) and c.func.value.value == ""]
+    if len(joins) != 1 or not joins[0].args or not isinstance(joins[0].args[0], ast.Name):
+        return None, "the components are not assembled by a single ''.join(<list>)"
+    j = joins[0]
+    parts = j.args[0].id
+    par = getattr(j, "_p", None)
+    if isinstance(par, ast.BoolOp) and isinstance(par.op, ast.Or) and par.values[0] is j:
+        rest = par.values[1:]
+        if all(isinstance(r, ast.Constant) and isinstance(r.value, str) and r.value for r in rest):
+            return True, f"is written as the non-empty fallback {rest[0].value!r}"
+    # an explicit early exit for zero / for no components
+    for n in ast.walk(fn):
+        if isinstance(n, ast.If) and any(isinstance(x, ast.Return) for x in n.body):
+            t = ast.unparse(n.test)
+            if "== 0" in t or t.startswith("not "):
+                rets = [x for x in n.body if isinstance(x, ast.Return) and x.value is not None]
+                if rets and any(isinstance(c, ast.Constant) and isinstance(c.value, str) and c.value for c in ast.walk(rets[0].value)):
+                    return True, "is written by an explicit branch for zero"
+    # no guard: are components appended only when non-zero?
+    appends = [c for c in ast.walk(fn) if isinstance(c, ast.Call) and isinstance(c.func, ast.Attribute) and c.func.attr == "append" and dotted(c.func.value) == parts]
+    if appends:
+        cond = True
+        for a in appends:
+            p = getattr(a, "_p", None)
+            guarded = False
+            while p is not None and p is not fn:
+                if isinstance(p, ast.If) and "!= 0" in ast.unparse(p.test):
+                    guarded = True
+                p = getattr(p, "_p", None)
+            cond = cond and guarded
+        if cond:
+            return False, "is written as `\"\"`: components are appended only when non-zero and the joined text has no fallback (duration(\"\") is rejected by the reader)"
+    return None, "the handling of a zero period was not recognised"
+
+
 def check(repo: Repo, run: Run) -> None:
     run.explanation = (
         "V1: atomic_op_map against the reference in the property statement (alias groups identical, the relation token is the "
@@ -125,27 +167,40 @@ def check(repo: Repo, run: Run) -> None:
                str(mod.path))
     run.floor("C19.V6", len(set(called) - holes), 25)
     # V3 -----------------------------------------------------------------
+    from ..core.consteval import ConstEval, NotConstant, try_const
+
     s2d = mod.func("C7N_Rewriter.seconds_to_duration")
+    rw_cls = mod.cls("C7N_Rewriter")
     units = None
-    for n in ast.walk(s2d):
-        if isinstance(n, ast.Assign) and isinstance(n.value, ast.List) and n.value.elts and all(isinstance(e, ast.Tuple) and len(e.elts) == 2 for e in n.value.elts):
-            units = [(fold(e.elts[0]), fold(e.elts[1])) for e in n.value.elts]
+    # the unit table: whatever expression in the function (a local, a class attribute, a module constant, the iterable
+    # of the loop) evaluates to a sequence of (seconds, suffix) pairs
+    cands = [n.value for n in ast.walk(s2d) if isinstance(n, (ast.Assign, ast.AnnAssign)) and n.value is not None]
+    cands += [n.iter for n in ast.walk(s2d) if isinstance(n, ast.For)]
+    cands += [n for n in ast.walk(s2d) if isinstance(n, (ast.Attribute, ast.Name)) and isinstance(n.ctx, ast.Load)]
+    for c in cands:
+        val = try_const(mod, c, rw_cls, s2d)
+        if isinstance(val, (list, tuple)) and val and all(isinstance(e, (list, tuple)) and len(e) == 2 and isinstance(e[0], (int, float)) and isinstance(e[1], str) for e in val):
+            units = [(e[0], e[1]) for e in val]
+            break
     ct = repo.mod("celtypes")
-    scale = None
-    for n in ct.cls("DurationType").body:
-        tgt = n.target if isinstance(n, ast.AnnAssign) else (n.targets[0] if isinstance(n, ast.Assign) else None)
-        if isinstance(tgt, ast.Name) and tgt.id == "scale" and isinstance(n.value, ast.Dict):
-            scale = {fold(k): fold(v) for k, v in zip(n.value.keys, n.value.values)}
-    if units is None or scale is None:
-        raise AnchorMissing("seconds_to_duration units / DurationType.scale")
+    try:
+        scale = ConstEval(ct, ct.cls("DurationType")).class_attr(ct.cls("DurationType"), "scale")
+    except NotConstant as ex:
+        raise AnchorMissing(f"DurationType.scale is not a constant table: {ex}")
+    if units is None or not isinstance(scale, dict):
+        run.inconclusive("C19.V3", "seconds_to_duration|units", "no constant (seconds, suffix) table was found in seconds_to_duration")
+        units = []
     for secs, u in units:
         run.ob("C19.V3", f"unit {u}", u in scale and abs(scale[u] - secs) < 1e-9, f"the writer emits unit `{u}` = {secs} s; the reader's table has {scale.get(u)}", mod.loc(s2d))
     dec = [secs for secs, _ in units]
-    run.ob("C19.V3", "units|descending", dec == sorted(dec, reverse=True) and dec[-1] == 1, "units are consumed largest first down to seconds (the remainder is always representable)", mod.loc(s2d))
-    # zero: the loop `while seconds != 0` emits nothing for 0 -> duration("")
-    src = ast.unparse(s2d)
-    zero_guard = any(isinstance(n, ast.If) and ("== 0" in ast.unparse(n.test) or "not seconds" in ast.unparse(n.test) or "not duration" in ast.unparse(n.test)) for n in ast.walk(s2d)) or " or '0s'" in src or ' or "0s"' in src
-    run.ob("C19.V3", "seconds_to_duration|zero", zero_guard, "a period of zero seconds " + ("is written as a non-empty duration" if zero_guard else "is written as `\"\"` (duration(\"\") is rejected by the reader)"), mod.loc(s2d))
+    if units:
+        run.ob("C19.V3", "units|descending", dec == sorted(dec, reverse=True) and dec[-1] == 1, "units are consumed largest first down to seconds (the remainder is always representable)", mod.loc(s2d))
+    # zero: a loop that appends only non-zero components emits nothing for 0 -> duration("")
+    verdict, why = zero_period(s2d)
+    if verdict is None:
+        run.inconclusive("C19.V3", "seconds_to_duration|zero", why)
+    else:
+        run.ob("C19.V3", "seconds_to_duration|zero", verdict, "a period of zero seconds " + why, mod.loc(s2d))
     # V4 -----------------------------------------------------------------
     n4 = 0
     for rname in rewriters:
